@@ -44,6 +44,7 @@ public:
                 // it is value ptr (not inline value)
                 value::remove_delete_flag(vp);
                 auto [v_ptr, v_len, v_align] = value::get_gc_info(vp);
+                YAKUSHIMA_VERIF_POINT(RETIRE_VALUE, v_ptr);
                 ti->get_gc_info().push_value_container(
                         {ti->get_begin_epoch(), v_ptr, v_len, v_align});
                 /**
@@ -51,6 +52,7 @@ public:
                  * need_delete
                  */
                 lv_.at(pos).init_lv();
+                YAKUSHIMA_VERIF_POINT(RM_CLEARED, this);
             }
         }
 
@@ -188,6 +190,7 @@ public:
                     }
                     auto* tinfo =
                             reinterpret_cast<thread_info*>(token); // NOLINT
+                    YAKUSHIMA_VERIF_POINT(RETIRE_NODE, this);
                     tinfo->get_gc_info().push_node_container(
                             {tinfo->get_begin_epoch(), this});
                 } else {
